@@ -78,13 +78,14 @@ pub fn judge(rep: &mut Report, c: &Case) {
         // some line fails: the list must fail, with the error kind of the first failing line of the phase that comes first
         rep.nontrivial(hash64(&(&c.rules, &c.lines, 1u8)));
         let kinds: Vec<Option<String>> = singles.iter().map(|x| match x { Err(Applied::Err(k)) => Some(k.clone()), _ => None }).collect();
-        let parse_fail = kinds.iter().flatten().find(|k| k.starts_with("WordSyn") || k.starts_with("AliasSyn") || k.starts_with("RuleSyn"));
         let first_fail = kinds.iter().flatten().next().unwrap();
-        let expected = parse_fail.unwrap_or(first_fail).clone();
-        // rule syntax errors do not depend on the words at all; word syntax errors come before them in `run`
-        let rule_syn = kinds.iter().flatten().any(|k| k.starts_with("RuleSyn"));
-        let word_syn = kinds.iter().flatten().any(|k| k.starts_with("WordSyn"));
-        if rule_syn && word_syn { rep.obs("mixed_phase_failures_not_judged", 1); return }
+        // `run` parses every word, then every rule, then applies: a word that does not parse wins over everything, a rule that does
+        // not PARSE fails every line alike. A rule-syntax error that is only found when the rule is applied (e.g. UnbalancedRuleIO of a
+        // condensed rule) belongs to the word it is found on, like a runtime error.
+        let rule_parse_fail = c.rules.iter().any(|x| matches!(compile1(x), Err(Applied::Err(_))));
+        let word_syn = kinds.iter().flatten().find(|k| k.starts_with("WordSyn"));
+        if rule_parse_fail && word_syn.is_some() { rep.obs("mixed_phase_failures_not_judged", 1); return }
+        let expected = if let Some(w) = word_syn { w.clone() } else if rule_parse_fail { kinds.iter().flatten().find(|k| k.starts_with("RuleSyn")).unwrap_or(first_fail).clone() } else { first_fail.clone() };
         rep.obs("failing_lists_judged", 1);
         match &whole {
             Ok(got) => rep.violation("list-succeeds-though-a-line-fails".into(), || json!({"case": cj(), "expected": expected, "observed": got})),
